@@ -247,8 +247,15 @@ class World:
             ev["rows_ok"] = bool(res.index.equals(obj.df.index))
             # probe vector: predictions at up to 48 timestamps of the caller's frame, "missing" where none was produced
             src = self.ext[d].index
-            k = min(len(src), 48)
-            pos = sorted(set(int(round(x)) for x in np.linspace(0, len(src) - 1, k)))
+            k = min(len(src), 96)
+            pos = set(int(round(x)) for x in np.linspace(0, len(src) - 1, k))
+            # plus rows the observed-variants touch (blanked / zeroed positions and their neighbours)
+            allpos = np.arange(len(src))
+            for m in ((allpos * 7919 % 10) == 5, (allpos * 7919 % 10) < 3):
+                hit = allpos[m][:40]
+                pos.update(int(x) for x in hit)
+                pos.update(int(x) + 1 for x in hit if x + 1 < len(src))
+            pos = sorted(pos)
             look = pd.Series(pred, index=res.index)
             look = look[~look.index.duplicated(keep="first")]
             pv = []
